@@ -25,6 +25,11 @@ THEOREMS = [
     "Aio.C09.truncated_clean_eof_counterexample",
     "Aio.C09.read_capped",
     "Aio.C09.progress_counterexample_stale_pause",
+    "Aio.C09.progress_counterexample_stale_pause_siblings",
+    "Aio.C09.needs_input_clears_pause",
+    "Aio.C09.no_stale_pause",
+    "Aio.C09.no_stale_pause_current",
+    "Aio.C09.stale_pause_scenarios_repaired",
     "Aio.C09.lost_body_counterexample_peer_close",
     "Aio.C09.lost_body_counterexample_chunked_close",
     "Aio.C09.parked_reader_misses_error_counterexample",
@@ -38,6 +43,10 @@ RULE = ("a case = (side client|server, encoding identity|gzip|deflate|raw-deflat
         "error class, buffered size, the four pause/pending flags, eof, total_bytes, peak size. non-trivial = at least one "
         "body byte reached the reader or an error was reported; distinct by full case content.")
 TRUSTED_BASE = [
+    "behaviour flag needsInputClearsPause: probed on every run by driving a real HttpPayloadParser + StreamReader through a "
+    "feed_data() call that is asked to pause and returns PAYLOAD_NEEDS_INPUT at each of its return sites; written to "
+    "lean/AioModel/Generated/C09.lean; the model is parametric in it (World.clearOnNeeds) and the theorems hold for both values "
+    "(counterexamples for false, no_stale_pause for true)",
     "zlib / brotli / zstd and aiohttp.compression_utils are NOT modelled: the decompressor is the parameter `Codec` of every "
     "theorem; its laws (Codec.Lawful: output <= max_length, data_available implies non-empty output, concatenated outputs "
     "refine the one-shot decode) are only tested, on every generated payload, against the real ZLibDecompressor / "
@@ -70,6 +79,67 @@ ASSUMPTIONS = [
 MAXSIZE = sys.maxsize
 BROTLI_SLACK = 32768   # Brotli's Decompressor.process(data, limit) may exceed `limit` by up to one block
 LIMITS = [1, 2, 3, 5, 16, 100, 1024, 4096, 4096, 16384, 65536]
+
+
+# ------------------------------------------------------------------------------------ behaviour flag probed from the source
+def probe_needs_input_clears_pause():
+    """Behavioural probe (no text matching): a real HttpPayloadParser feeds a real StreamReader (limit 4, high water 8)
+    whose protocol forwards pause_reading() to the parser, as BaseProtocol does.  One feed_data() call pushes 9 bytes
+    (the reader asks for a pause inside the call) and returns PAYLOAD_NEEDS_INPUT at the site under test; is `_paused`
+    still set afterwards?  -> {site: cleared?}"""
+    from aiohttp.http_parser import HttpPayloadParser, HeadersParser, PayloadState
+    from aiohttp.streams import StreamReader
+    from unittest import mock
+    loop = asyncio.new_event_loop()
+    x9 = b"X" * 9
+    sites = [
+        ("chunk-boundary", dict(chunked=True), b"9\r\n" + x9 + b"\r\n"),           # loop exit -> final return
+        ("before-crlf", dict(chunked=True), b"9\r\n" + x9),                           # chunk-EOF incomplete
+        ("mid-size-line", dict(chunked=True), b"9\r\n" + x9 + b"\r\n5"),            # size line incomplete
+        ("trailers", dict(chunked=True), b"9\r\n" + x9 + b"\r\n0\r\nX-T: a"),      # trailers incomplete
+        ("length", dict(length=20), x9),                                               # final return, PARSE_LENGTH
+        ("until-eof", dict(), x9),                                                     # final return, PARSE_UNTIL_EOF
+    ]
+    res = {}
+    try:
+        for name, kw, data in sites:
+            holder = {}
+            proto = mock.Mock()
+            proto.pause_reading.side_effect = lambda: holder["pp"].pause_reading()
+            sr = StreamReader(proto, 4, loop=loop)
+            pp = HttpPayloadParser(sr, headers_parser=HeadersParser(), limit=4, **kw)
+            holder["pp"] = pp
+            state, _ = pp.feed_data(data)
+            if state is not PayloadState.PAYLOAD_NEEDS_INPUT or not proto.pause_reading.called:
+                raise RuntimeError(f"probe site {name}: state={state!r} pause requested={proto.pause_reading.called}")
+            res[name] = not pp._paused
+        # control: the mid-chunk return clears the flag in both versions of the code
+        holder = {}
+        proto = mock.Mock()
+        proto.pause_reading.side_effect = lambda: holder["pp"].pause_reading()
+        pp = HttpPayloadParser(StreamReader(proto, 4, loop=loop), chunked=True, headers_parser=HeadersParser(), limit=4)
+        holder["pp"] = pp
+        pp.feed_data(b"e\r\n" + x9)
+        res["mid-chunk(control)"] = not pp._paused
+    finally:
+        loop.close()
+    return res
+
+
+def generate(repo):
+    res = probe_needs_input_clears_pause()
+    sites = {k: v for k, v in res.items() if not k.endswith("(control)")}
+    flag = all(sites.values())
+    detail = " ".join(f"{k}={v}" for k, v in res.items())
+    body = (
+        "-- GENERATED by harness/c09.py from the imported aiohttp.http_parser — do not edit\n"
+        "namespace Aio.Gen.C09\n"
+        "/-- probe: a real `HttpPayloadParser` whose reader asks for a pause during a `feed_data` call that\n"
+        "returns PAYLOAD_NEEDS_INPUT has `_paused == False` afterwards, at every such return\n"
+        f"(sites: {detail}) -/\n"
+        f"def needsInputClearsPause : Bool := {'true' if flag else 'false'}\n"
+        "end Aio.Gen.C09\n")
+    return {"AioModel/Generated/C09.lean": body}
 
 
 # ------------------------------------------------------------------------------------ codecs
